@@ -120,6 +120,8 @@ struct Scenario {
     wildcard: bool, // tls_client through the C ABI: allow_server_name_wildcard
     #[serde(default)]
     local_cert: String, // tls_client: the client's own certificate
+    #[serde(default)]
+    ctor: String, // tls_client: "legacy" = the deprecated TlsClientConfig::new(name, .., certificate_mode)
     steps: Vec<Step>,
 }
 
@@ -818,7 +820,18 @@ async fn run_tls_client(sc: &Scenario, sink: &Sink) {
             off_runtime(move || cabi_client_destroy(ch, rt)).await;
             continue;
         }
-        let cfg = if sc.mode == "self" {
+        #[allow(deprecated)]
+        let cfg = if sc.ctor == "legacy" {
+            TlsClientConfig::new(
+                sc.name.as_deref().unwrap_or("unused.example"),
+                std::path::Path::new(&pem_path(&sc.peer_cert, "cert")),
+                std::path::Path::new(&pem_path(&sc.local_cert, "cert")),
+                std::path::Path::new(&pem_path(&sc.local_cert, "key")),
+                None,
+                min,
+                if sc.mode == "self" { CertificateMode::SelfSigned } else { CertificateMode::AuthorityBased },
+            )
+        } else if sc.mode == "self" {
             TlsClientConfig::self_signed(
                 std::path::Path::new(&pem_path(&sc.peer_cert, "cert")),
                 std::path::Path::new(&pem_path(&sc.local_cert, "cert")),
